@@ -111,10 +111,10 @@ DRecvReply == /\ bud.dsent < MaxReq
               /\ \E w \in {"reply", "shortqr"} : dg' = DgRecv(dg, w, bud.dsent + 1, "")
               /\ bud' = [bud EXCEPT !.dsent = @ + 1] /\ DSame
 DReconf == /\ bud.dreconf < 2
-           /\ \E lim \in {512, 1232, 4096} \ {dg.limit} : dg' = DgReconf(dg, lim)
+           /\ \E lim \in {100, 512, 1232, 4096, 60000} : DgReconf(dg, lim) # dg /\ dg' = DgReconf(dg, lim)
            /\ bud' = [bud EXCEPT !.dreconf = @ + 1] /\ DSame
 DRecvBig == /\ bud.dsent < MaxReq
-            /\ dg' = DgRecv(dg, "query", bud.dsent + 1, "big")
+            /\ \E svc \in {"big", "mid", "huge"} : dg' = DgRecv(dg, "query", bud.dsent + 1, svc)
             /\ bud' = [bud EXCEPT !.dsent = @ + 1] /\ DSame
 SpuriousReadable == /\ bud.dspur < 1 /\ dg' = DgSpurious(dg)
                     /\ bud' = [bud EXCEPT !.dspur = @ + 1] /\ DSame
@@ -158,7 +158,7 @@ IdleUsesValueInForce ==
   \A c \in Conns :
      LET fbs == {S(c).yielded[i].r : i \in 1..Len(S(c).yielded)}
      IN S(c).itmo \in {IdleDefault, IdleLong, IdleShort}
-        /\ (S(c).itmo # IdleDefault => \E r \in DOMAIN S(c).tasks : S(c).tasks[r].n > 0)
+        /\ (S(c).itmo # IdleDefault => \E r \in DOMAIN S(c).tasks : S(c).tasks[r].disp)
 AcceptLoopAlive == bud.listening = ~bud.down
 NumConnsExact == bud.nconn = Cardinality({c \in Conns : S(c).live})
 RefusedOnlyAtLimit ==
